@@ -17,10 +17,12 @@
 #include <Eigen/Core>
 #include <Eigen/Geometry>
 #include "romea_core_common/math/EulerAngles.hpp"
+#include "romea_core_common/math/Transformation.hpp"
 #include "romea_core_common/transform/SmartRotation3D.hpp"
 #include "romea_core_common/coordinates/PolarCoordinates.hpp"
 #include "romea_core_common/coordinates/SphericalCoordinates.hpp"
 #include "vh.hpp"
+#include <memory>
 
 // toSpherical<float> is ill-formed on the pinned tree (`double range` is passed together with a float
 // z to a template that deduces one Scalar for both; pending_fixes/C10_spherical_float.diff).  With 1
@@ -273,11 +275,26 @@ template<class S> static int pick_quaternion_scale(vh::Rng & r, bool steep, S & 
   return 2;
 }
 
-struct CaseInfo
+// Inputs fixed by the caller instead of drawn: exact special values that random reals never produce
+struct Preset
 {
-  const char * cat = "";
-  std::vector<std::pair<std::string, double>> p;     // numeric params (for known-finding matching)
+  const char * cat;
+  LD v[3];          // Euler: roll, pitch, yaw; normaliser / planar angle: v[0]; point: x, y(, z)
+  M3 R;             // rotation given as an exact matrix (2x2 block for the planar pair)
+  Q4 q;             // the same rotation as a quaternion
 };
+
+// bit-for-bit comparison of two results of the same library call
+template<class A> static bool same_bits(const A & a, const A & b)
+{
+  return std::memcmp(a.data(), b.data(), sizeof(typename A::Scalar) * a.size()) == 0;
+}
+template<class S> static bool same_bits_q(const Eigen::Quaternion<S> & a, const Eigen::Quaternion<S> & b)
+{
+  return std::memcmp(a.coeffs().data(), b.coeffs().data(), 4 * sizeof(S)) == 0;
+}
+template<class S> static bool same_bits_s(const S & a, const S & b) {return std::memcmp(&a, &b, sizeof(S)) == 0;}
+static volatile double g_sink = 0;     // keeps the interfering sibling calls alive
 
 // ------------------------------------------------------------------------------------------------
 // proper rotation monitor for any produced 3x3
@@ -294,7 +311,13 @@ template<class S> static void check_proper3(
 // ------------------------------------------------------------------------------------------------
 // family: Euler angles given
 // ------------------------------------------------------------------------------------------------
-template<class S> static void euler_case(vh::Ctx & c, vh::Rng & r)
+template<class S> static void api_semantics_block(
+  vh::Ctx & c, vh::Rng & r2, S roll, S pitch, S yaw, const std::function<vh::Params()> & params,
+  const std::function<std::string()> & wit);
+static void smart_object_block(
+  vh::Ctx & c, vh::Rng & r2, double roll, double pitch, double yaw, const std::function<std::string()> & wit);
+
+template<class S> static void euler_case(vh::Ctx & c, vh::Rng & r, const Preset * ps = nullptr)
 {
   typedef Eigen::Matrix<S, 3, 1> V3;
   typedef Eigen::Matrix<S, 3, 3> Mat3;
@@ -302,7 +325,9 @@ template<class S> static void euler_case(vh::Ctx & c, vh::Rng & r)
   const char * cat;
   S roll, pitch, yaw;
   bool axis_only = false;
-  if (sub < 40) {
+  if (ps) {
+    cat = ps->cat; roll = (S)ps->v[0]; pitch = (S)ps->v[1]; yaw = (S)ps->v[2];
+  } else if (sub < 40) {
     cat = "euler_generic";
     roll = pick_turn_angle<S>(r, 0); pitch = pick_pitch<S>(r, 0); yaw = pick_turn_angle<S>(r, 0);
   } else if (sub < 62) {
@@ -461,6 +486,36 @@ template<class S> static void euler_case(vh::Ctx & c, vh::Rng & r)
       }
     }
   }
+
+  // ---- call semantics of the stateless functions / object semantics of the stateful helper (own random stream, so
+  // that the cases above are the same with and without these blocks)
+  vh::Rng r2(c.seed, c.cur, 7);
+  if (r2.coin(0.25)) {api_semantics_block<S>(c, r2, roll, pitch, yaw, params, wit);}
+  if (std::is_same<S, double>::value && r2.coin(0.4)) {smart_object_block(c, r2, (double)roll, (double)pitch, (double)yaw, wit);}
+
+  // ---- rigid_transformation3 (Transformation.hpp): the statement does not name it and it has no inverse; what the
+  // statement says about every produced matrix is checked (proper rotation, affine last row), and agreement with
+  // Z-Y-X where the composition order cannot matter (at most one non-zero angle).  For generic angles it composes
+  // Rx*Ry*Rz, i.e. not the Z-Y-X rotation of the other builders: recorded in checks/C10.py, not demanded here.
+  if (r2.coin(0.15)) {
+    c.cat(istr("rigid_transformation3"));
+    const V3 tr((S)r2.uni(-10, 10), (S)r2.uni(-10, 10), (S)r2.uni(-10, 10));
+    const auto T = rc::rigid_transformation3<S>(tr, a);
+    const Eigen::Matrix<S, 4, 4> Tm = T.matrix();
+    M3 L;
+    bool fin = true;
+    for (int i = 0; i < 3; ++i) {for (int j = 0; j < 4; ++j) {fin = fin && std::isfinite(Tm(i, j)); if (j < 3) {L.m[i][j] = (LD)Tm(i, j);}}}
+    if (c.expect(ON("finite"), fin, "nonfinite", params, wit)) {
+      check_proper3<S>(c, L, "rigid_transformation3 (linear part)", params, wit);
+      c.expect(ON("rigid_transformation3.affine_row"), Tm(3, 0) == 0 && Tm(3, 1) == 0 && Tm(3, 2) == 0 && Tm(3, 3) == 1,
+        "not_proper_rotation", params, wit);
+      if (nz <= 1) {
+        c.cat(istr("rigid_transformation3_axis_only"));
+        c.expect_le(ON("build.rigid_transformation3_axis_only_vs_zyx"), frob(L, Ro), K_BUILD_Q * eps<S>(), "builders_disagree",
+          params, [&]() {return vh::J().s("builder", "rigid_transformation3").raw("got", jm3(L)).raw("zyx", jm3(Ro)).raw("case", wit()).str();});
+      }
+    }
+  }
 }
 
 // ------------------------------------------------------------------------------------------------
@@ -475,7 +530,7 @@ static Q4 random_unit_q(vh::Rng & r)
   }
 }
 
-template<class S> static void rotation_case(vh::Ctx & c, vh::Rng & r, bool as_quaternion)
+template<class S> static void rotation_case(vh::Ctx & c, vh::Rng & r, bool as_quaternion, const Preset * ps = nullptr)
 {
   typedef Eigen::Matrix<S, 3, 1> V3;
   typedef Eigen::Matrix<S, 3, 3> Mat3;
@@ -483,7 +538,9 @@ template<class S> static void rotation_case(vh::Ctx & c, vh::Rng & r, bool as_qu
   const char * cat;
   bool axis_only = false;
   Q4 ql;            // the rotation, long double
-  if (sub < 55) {
+  if (ps) {
+    cat = ps->cat; ql = ps->q; sub = 0;
+  } else if (sub < 55) {
     cat = as_quaternion ? "quaternion_generic" : "rotmat_generic";
     ql = random_unit_q(r);
   } else if (sub < 90) {
@@ -525,7 +582,7 @@ template<class S> static void rotation_case(vh::Ctx & c, vh::Rng & r, bool as_qu
     }
   } else {
     for (;;) {
-      M3 Rl = R_of_q(ql);
+      M3 Rl = ps ? ps->R : R_of_q(ql);        // a preset matrix is exact (entries 0, +-1)
       for (int i = 0; i < 3; ++i) {for (int j = 0; j < 3; ++j) {Rs(i, j) = (S)Rl.m[i][j];}}
       if (fabsl(Rl.m[2][0]) <= R20_LIM_L) {break;}
       ql = random_unit_q(r);       // outside the stated domain (probability ~1e-6): draw another rotation
@@ -604,12 +661,12 @@ template<class S> static void rotation_case(vh::Ctx & c, vh::Rng & r, bool as_qu
 // ------------------------------------------------------------------------------------------------
 // family: normalisers
 // ------------------------------------------------------------------------------------------------
-template<class S> static void normaliser_case(vh::Ctx & c, vh::Rng & r)
+template<class S> static void normaliser_case(vh::Ctx & c, vh::Rng & r, const Preset * ps = nullptr)
 {
   int sub = (int)r.range(0, 99);
   const char * cat;
   S v;
-  if (sub < 35) {
+  if (ps) {cat = ps->cat; v = (S)ps->v[0];} else if (sub < 35) {
     cat = "normaliser_random"; v = (S)r.uni(-4 * M_PI, 4 * M_PI);
   } else if (sub < 60) {
     cat = "normaliser_multiple_ulps";                           // k*pi/2, k in [-8, 8], +- 0..3 ulps
@@ -656,16 +713,31 @@ template<class S> static void normaliser_case(vh::Ctx & c, vh::Rng & r)
       c.expect(ON("normaliser.mpi_pi.interval"), fabsl((LD)w) <= PI_L + slack, "normaliser_out_of_interval", params, ww);
     }
   }
+  // ---- results bound by reference, other inputs (both scalar types) in between, the same input again
+  vh::Rng r2(c.seed, c.cur, 7);
+  if (r2.coin(0.25)) {
+    c.cat(istr("normaliser_call_semantics"));
+    const auto & w0 = rc::between0And2Pi<S>(v);
+    const auto & w1 = rc::betweenMinusPiAndPi<S>(v);
+    const S k0 = w0, k1 = w1;
+    const double o = r2.uni(-12, 12);
+    g_sink = g_sink + rc::between0And2Pi<float>((float)o) + rc::betweenMinusPiAndPi<double>(o) + rc::between0And2Pi<double>(-o) +
+      rc::betweenMinusPiAndPi<float>((float)-o);
+    c.expect(ON("api.result_stable"), same_bits_s(w0, k0) && same_bits_s(w1, k1), "result_changed_later", params, wit);
+    c.expect(ON("api.same_input_same_result"), same_bits_s(rc::between0And2Pi<S>(S(v)), k0) &&
+      same_bits_s(rc::betweenMinusPiAndPi<S>(S(v)), k1), "result_not_reproducible", params, wit);
+  }
 }
 
 // ------------------------------------------------------------------------------------------------
 // family: planar angle <-> 2x2 rotation
 // ------------------------------------------------------------------------------------------------
-template<class S> static void rot2d_case(vh::Ctx & c, vh::Rng & r)
+template<class S> static void rot2d_case(vh::Ctx & c, vh::Rng & r, const Preset * ps = nullptr)
 {
   typedef Eigen::Matrix<S, 2, 2> Mat2;
-  const char * cat = "rot2d";
+  const char * cat = ps ? ps->cat : "rot2d";
   S th = pick_turn_angle<S>(r, (int)r.range(0, 4));
+  if (ps) {th = (S)ps->v[0];}
   LD lt = th;
   c.cat(istr(cat));
   c.distinct(vh::hash_doubles({5.0, Tr<S>::id(), (double)th}), th != 0);
@@ -692,6 +764,7 @@ template<class S> static void rot2d_case(vh::Ctx & c, vh::Rng & r)
   if (r.coin(0.3)) {phi = (LD)((double)r.range(-2, 2) * M_PI / 2) + (LD)(r.sign() * r.logu(1e-16, 1e-3));}
   Mat2 Rg;
   Rg << (S)cosl(phi), (S)(-sinl(phi)), (S)sinl(phi), (S)cosl(phi);
+  if (ps) {Rg << (S)ps->R.m[0][0], (S)ps->R.m[0][1], (S)ps->R.m[1][0], (S)ps->R.m[1][1];}     // exact quarter turn
   const S ag = rc::rotation2DToEulerAngle<S>(Rg);
   const Mat2 Rb = rc::eulerAngleToRotation2D<S>(ag);
   LD df = sqrtl(powl((LD)Rb(0, 0) - (LD)Rg(0, 0), 2) + powl((LD)Rb(0, 1) - (LD)Rg(0, 1), 2) +
@@ -712,13 +785,22 @@ template<class S> static S pick_range(vh::Rng & r)
   return (S)v;
 }
 
-template<class S> static void polar_case(vh::Ctx & c, vh::Rng & r)
+template<class S> static void polar_extras(
+  vh::Ctx & c, S x, S y, LD nrm, const std::function<vh::Params()> & params, const std::function<std::string()> & wit);
+template<class S> static void spherical_extras(
+  vh::Ctx & c, S x, S y, S z, LD nrm, LD sin_el, const std::function<vh::Params()> & params,
+  const std::function<std::string()> & wit);
+
+template<class S> static void polar_case(vh::Ctx & c, vh::Rng & r, const Preset * ps = nullptr)
 {
   int sub = (int)r.range(0, 99);
   const char * cat;
   S rho = pick_range<S>(r);
   LD az;
-  if (sub < 50) {cat = "polar_generic"; az = (LD)r.uni(-M_PI, M_PI);} else {
+  if (ps) {
+    cat = ps->cat; sub = 0;
+    rho = (S)hypotl((LD)(S)ps->v[0], (LD)(S)ps->v[1]); az = atan2l((LD)(S)ps->v[1], (LD)(S)ps->v[0]);
+  } else if (sub < 50) {cat = "polar_generic"; az = (LD)r.uni(-M_PI, M_PI);} else {
     cat = "polar_axis";                                          // on / next to the axes and the branch cut
     az = (LD)((double)r.range(-2, 2) * M_PI / 2);
     if (r.coin(0.7)) {az += (LD)(r.sign() * r.logu(1e-17, 1e-3));}
@@ -729,6 +811,7 @@ template<class S> static void polar_case(vh::Ctx & c, vh::Rng & r)
   c.cat(istr(homogeneous ? "polar_homogeneous" : "polar_cartesian"));
   // ---- Cartesian point first
   S x = (S)((LD)rho * cosl(az)), y = (S)((LD)rho * sinl(az));
+  if (ps) {x = (S)ps->v[0]; y = (S)ps->v[1];}
   if (sub >= 50 && r.coin(0.3)) {                                                      // exactly on an axis
     bool zero_x = r.coin();
     S zero = (S)(r.coin() ? 0.0 : -0.0), other = (S)(r.sign() * (double)rho);
@@ -736,7 +819,7 @@ template<class S> static void polar_case(vh::Ctx & c, vh::Rng & r)
   }
   LD nrm = hypotl((LD)x, (LD)y);
   c.distinct(vh::hash_doubles({6.0, Tr<S>::id(), (double)x, (double)y, homogeneous ? 1.0 : 0.0}),
-    !(std::is_same<S, double>::value && sub < 50 && !homogeneous));
+    ps || !(std::is_same<S, double>::value && sub < 50 && !homogeneous));
   const std::function<vh::Params()> params = [&]() {
       return vh::Params{{"scalar", Tr<S>::id()}, {"x", (double)x}, {"y", (double)y}, {"norm", (double)nrm},
         {"homogeneous", homogeneous ? 1.0 : 0.0}};
@@ -793,6 +876,7 @@ template<class S> static void polar_case(vh::Ctx & c, vh::Rng & r)
       c.expect_le(ON("polar.polar_cartesian_polar"), e, K_COORD * eps<S>(), "polar_roundtrip", p2, w);
     }
   }
+  polar_extras<S>(c, x, y, nrm, params, wit);
 }
 
 // ------------------------------------------------------------------------------------------------
@@ -837,13 +921,17 @@ template<class S> static LD acos_term(LD sin_el)
   return sin_el > 0 ? std::min(2 * D / sin_el, a) : a;
 }
 
-template<class S> static void spherical_case(vh::Ctx & c, vh::Rng & r)
+template<class S> static void spherical_case(vh::Ctx & c, vh::Rng & r, const Preset * ps = nullptr)
 {
   int sub = (int)r.range(0, 99);
   const char * cat;
   S rho = pick_range<S>(r);
   LD az = (LD)r.uni(-M_PI, M_PI), el;
-  if (sub < 40) {
+  if (ps) {
+    cat = ps->cat; sub = 0;
+    LD px = (S)ps->v[0], py = (S)ps->v[1], pz = (S)ps->v[2], pn = sqrtl(px * px + py * py + pz * pz);
+    rho = (S)pn; az = atan2l(py, px); el = acosl(std::max(-1.0L, std::min(1.0L, pz / pn)));
+  } else if (sub < 40) {
     cat = "spherical_generic"; el = acosl((LD)r.uni(-1, 1));
   } else if (sub < 75) {
     cat = "spherical_pole";                                   // log-spaced distance to either pole
@@ -864,6 +952,7 @@ template<class S> static void spherical_case(vh::Ctx & c, vh::Rng & r)
 
   // ---- Cartesian point first
   S x = (S)((LD)rho * cosl(az) * sinl(el)), y = (S)((LD)rho * sinl(az) * sinl(el)), z = (S)((LD)rho * cosl(el));
+  if (ps) {x = (S)ps->v[0]; y = (S)ps->v[1]; z = (S)ps->v[2];}
   if (sub >= 75 && r.coin(0.4)) {
     int k = (int)r.range(0, 2);
     S zero = (S)(r.coin() ? 0.0 : -0.0);
@@ -873,7 +962,7 @@ template<class S> static void spherical_case(vh::Ctx & c, vh::Rng & r)
   if (!(nrm >= 1e-6L && nrm <= 1e6L)) {z = (S)(z < 0 ? -(double)rho : (double)rho); nrm = sqrtl((LD)x * x + (LD)y * y + (LD)z * z);}
   LD sin_el = hypotl((LD)x, (LD)y) / nrm;
   c.distinct(vh::hash_doubles({7.0, Tr<S>::id(), (double)x, (double)y, (double)z, homogeneous ? 1.0 : 0.0}),
-    !(std::is_same<S, double>::value && sub < 40 && !homogeneous && sin_el > 0.3L));
+    ps || !(std::is_same<S, double>::value && sub < 40 && !homogeneous && sin_el > 0.3L));
   const std::function<vh::Params()> params = [&]() {
       return vh::Params{{"scalar", Tr<S>::id()}, {"x", (double)x}, {"y", (double)y}, {"z", (double)z}, {"norm", (double)nrm},
         {"sin_elevation", (double)sin_el}, {"homogeneous", homogeneous ? 1.0 : 0.0}};
@@ -950,6 +1039,556 @@ template<class S> static void spherical_case(vh::Ctx & c, vh::Rng & r)
       }
     }
   }
+  spherical_extras<S>(c, x, y, z, nrm, sin_el, params, wit);
+}
+
+// ------------------------------------------------------------------------------------------------
+// call semantics of the stateless conversion functions: results bound the way the signatures allow and kept across
+// later calls, the same call with temporaries / moved arguments, results assigned over their own argument, unrelated
+// calls (both scalar types, sibling SmartRotation3D objects) in between, the same input a second time
+// ------------------------------------------------------------------------------------------------
+template<class S> static void sibling_calls(vh::Rng & r2)
+{
+  const double o0 = r2.uni(-6, 6), o1 = r2.uni(-1.5, 1.5), o2 = r2.uni(-6, 6);
+  const Eigen::Matrix<S, 3, 1> o((S)o0, (S)o1, (S)o2);
+  const auto Ro = rc::eulerAnglesToRotation3D<S>(o);
+  const auto bo = rc::rotation3DToEulerAngles<S>(Ro);
+  const auto qo = rc::eulerAnglesToQuaternion<S>(o);
+  const auto eo = rc::quaternionToEulerAngles<S>(qo);
+  const S n = rc::between0And2Pi<S>((S)o0) + rc::betweenMinusPiAndPi<S>((S)o2);
+  const S p = rc::rotation2DToEulerAngle<S>(rc::eulerAngleToRotation2D<S>((S)o2));
+  const auto pol = rc::toPolar(rc::CartesianCoordinates2<S>((S)o0, (S)o2));
+  const auto car = rc::toCartesian(rc::SphericalCoordinates<S>((S)(1 + std::fabs(o0)), (S)o1, (S)std::fabs(o1)));
+  g_sink = g_sink + (double)(bo[0] + eo[1] + n + p + pol.getAzimut() + car.x());
+}
+
+template<class S> static void api_semantics_block(
+  vh::Ctx & c, vh::Rng & r2, S roll, S pitch, S yaw, const std::function<vh::Params()> & params,
+  const std::function<std::string()> & wit)
+{
+  typedef Eigen::Matrix<S, 3, 1> V3;
+  typedef Eigen::Matrix<S, 3, 3> Mat3;
+  typedef Eigen::Matrix<S, 2, 2> Mat2;
+  typedef Eigen::Quaternion<S> Qt;
+  c.cat(istr("api_call_semantics"));
+  const V3 a(roll, pitch, yaw);
+  const S scale = r2.coin() ? (S)1 : (S)r2.logu(1e-3, 1e3);
+
+  // results bound by (const) reference, snapshots taken at once
+  const auto & R = rc::eulerAnglesToRotation3D<S>(a);
+  const Mat3 R0 = R;
+  const auto & q = rc::eulerAnglesToQuaternion<S>(a);
+  const Qt q0 = q;
+  const Qt qs(q0.w() * scale, q0.x() * scale, q0.y() * scale, q0.z() * scale);
+  const auto & b = rc::rotation3DToEulerAngles<S>(R0);
+  const V3 b0 = b;
+  const auto & e = rc::quaternionToEulerAngles<S>(qs);
+  const V3 e0 = e;
+  const auto & n0 = rc::between0And2Pi<S>(roll);
+  const S n00 = n0;
+  const auto & n1 = rc::betweenMinusPiAndPi<S>(yaw);
+  const S n10 = n1;
+  const auto & P = rc::eulerAngleToRotation2D<S>(roll);
+  const Mat2 P0 = P;
+  const auto & pa = rc::rotation2DToEulerAngle<S>(P0);
+  const S pa0 = pa;
+
+  // value categories: temporaries and moved-from arguments
+  {
+    bool rv = same_bits(Mat3(rc::eulerAnglesToRotation3D<S>(V3(roll, pitch, yaw))), R0);
+    V3 am = a;
+    rv = rv && same_bits_q(Qt(rc::eulerAnglesToQuaternion<S>(std::move(am))), q0);
+    rv = rv && same_bits(V3(rc::rotation3DToEulerAngles<S>(Mat3(R0))), b0);
+    Qt qm = qs;
+    rv = rv && same_bits(V3(rc::quaternionToEulerAngles<S>(std::move(qm))), e0);
+    rv = rv && same_bits_s(S(rc::between0And2Pi<S>(S(roll))), n00) && same_bits_s(S(rc::betweenMinusPiAndPi<S>(S(yaw))), n10);
+    rv = rv && same_bits(Mat2(rc::eulerAngleToRotation2D<S>(S(roll))), P0);
+    rv = rv && same_bits_s(S(rc::rotation2DToEulerAngle<S>(Mat2(P0))), pa0);
+    c.expect(ON("api.rvalue_equals_lvalue"), rv, "call_form_dependent", params, wit);
+  }
+  // results assigned over their own argument
+  {
+    V3 a2 = a;
+    a2 = rc::rotation3DToEulerAngles<S>(rc::eulerAnglesToRotation3D<S>(a2));
+    Mat3 Rm = R0;
+    Rm = rc::eulerAnglesToRotation3D<S>(rc::rotation3DToEulerAngles<S>(Rm));
+    const Mat3 Rexp = rc::eulerAnglesToRotation3D<S>(b0);
+    Qt qq = q0;
+    qq = rc::eulerAnglesToQuaternion<S>(rc::quaternionToEulerAngles<S>(qq));
+    const V3 eq = rc::quaternionToEulerAngles<S>(q0);
+    const Qt qexp = rc::eulerAnglesToQuaternion<S>(eq);
+    c.expect(ON("api.result_over_argument"), same_bits(a2, b0) && same_bits(Rm, Rexp) && same_bits_q(qq, qexp),
+      "aliasing_dependent", params, wit);
+  }
+  // neighbouring facilities in between: other inputs, the other scalar type, sibling stateful objects
+  for (int k = 0; k < 2; ++k) {
+    sibling_calls<float>(r2);
+    sibling_calls<double>(r2);
+    const double o0 = r2.uni(-6, 6), o1 = r2.uni(-1.5, 1.5), o2 = r2.uni(-6, 6);
+    rc::SmartRotation3D sib(o0, o1, o2);
+    g_sink = g_sink + sib.R()(0, 0);
+  }
+  // the results kept from the first time (checked before anything is called with the same input again), then the
+  // same input a second time
+  {
+    bool st = same_bits(Mat3(R), R0) && same_bits_q(Qt(q), q0) && same_bits(V3(b), b0) && same_bits(V3(e), e0) &&
+      same_bits_s(S(n0), n00) && same_bits_s(S(n1), n10) && same_bits(Mat2(P), P0) && same_bits_s(S(pa), pa0);
+    c.expect(ON("api.result_stable"), st, "result_changed_later", params, wit);
+    bool rep = same_bits(Mat3(rc::eulerAnglesToRotation3D<S>(a)), R0) && same_bits_q(Qt(rc::eulerAnglesToQuaternion<S>(a)), q0) &&
+      same_bits(V3(rc::rotation3DToEulerAngles<S>(R0)), b0) && same_bits(V3(rc::quaternionToEulerAngles<S>(qs)), e0) &&
+      same_bits_s(S(rc::between0And2Pi<S>(roll)), n00) && same_bits_s(S(rc::betweenMinusPiAndPi<S>(yaw)), n10) &&
+      same_bits(Mat2(rc::eulerAngleToRotation2D<S>(roll)), P0) && same_bits_s(S(rc::rotation2DToEulerAngle<S>(P0)), pa0);
+    c.expect(ON("api.same_input_same_result"), rep, "result_not_reproducible", params, wit);
+  }
+}
+
+// ------------------------------------------------------------------------------------------------
+// the stateful helper as an object: value semantics (copy / move / self-assignment, source overwritten or destroyed,
+// copy used on), arguments aliasing the object's own state, operator*, R() view stability next to sibling objects
+// ------------------------------------------------------------------------------------------------
+static void smart_object_block(
+  vh::Ctx & c, vh::Rng & r2, double roll, double pitch, double yaw, const std::function<std::string()> & wit)
+{
+  using rc::SmartRotation3D;
+  c.cat(istr("smart_object_semantics"));
+  const double tA[3] = {roll, pitch, yaw};
+  const double tO[3] = {r2.uni(-6, 6), r2.uni(-1.5, 1.5), r2.uni(-6, 6)};
+  const double tB[3] = {r2.uni(-6, 6), r2.uni(-1.5, 1.5), r2.uni(-6, 6)};
+  int op = -1;
+  const char * stage = "";
+  const double * cur = tA;
+  const std::function<vh::Params()> pn = [&]() {
+      return vh::Params{{"scalar", 0.0}, {"roll", cur[0]}, {"pitch", cur[1]}, {"yaw", cur[2]}, {"operation", (double)op}};
+    };
+  const std::function<std::string()> wn = [&]() {
+      return vh::J().s("stage", stage).f("operation", op).f("roll", (LD)cur[0]).f("pitch", (LD)cur[1]).f("yaw", (LD)cur[2])
+             .raw("first_angles", wit()).str();
+    };
+  auto follows = [&](const SmartRotation3D & o, const double * t, const char * st, const char * oracle, const char * kind) {
+      cur = t; stage = st;
+      const M3 got = toM3(o.R());
+      if (!c.expect("finite.d", finite3(got), "nonfinite", pn, wn)) {return false;}
+      return c.expect_le(oracle, frob(got, oracle_R((LD)t[0], (LD)t[1], (LD)t[2])), K_BUILD * eps<double>(), kind, pn, wn);
+    };
+  auto flag = [&](const char * oracle, bool cond, const double * t, const char * st, const char * kind) {
+      cur = t; stage = st;
+      return c.expect(oracle, cond, kind, pn, wn);
+    };
+
+  // ---- value semantics
+  {
+    op = (int)r2.range(0, 4);   // 0 copy-construct, 1 copy-assign, 2 move-construct, 3 move-assign, 4 self-assign then copy
+    std::unique_ptr<SmartRotation3D> src(new SmartRotation3D(tA[0], tA[1], tA[2]));
+    const Eigen::Matrix3d snapA = src->R();
+    std::unique_ptr<SmartRotation3D> cp;
+    switch (op) {
+      case 0: cp.reset(new SmartRotation3D(*src)); break;
+      case 1: cp.reset(new SmartRotation3D(tO[0], tO[1], tO[2])); *cp = *src; break;
+      case 2: {
+          SmartRotation3D tmp(*src);
+          cp.reset(new SmartRotation3D(std::move(tmp)));
+          tmp.init(tO[0], tO[1], tO[2]);                       // the moved-from object is re-used
+          break;
+        }
+      case 3: {
+          cp.reset(new SmartRotation3D(tO[0], tO[1], tO[2]));
+          SmartRotation3D tmp(*src);
+          *cp = std::move(tmp);
+          tmp.init(tB[0], tB[1], tB[2]);
+          break;
+        }
+      default: {
+          SmartRotation3D & alias = *src;
+          *src = alias;
+          cp.reset(new SmartRotation3D(*src));
+        }
+    }
+    follows(*cp, tA, "copy right after the operation", "smart.value_semantics.d", "object_semantics");
+    flag("smart.copy_identical.d", same_bits(cp->R(), snapA), tA, "copy right after the operation", "object_semantics");
+    const bool destroy = r2.coin();
+    Eigen::Matrix3d snapO = Eigen::Matrix3d::Zero();
+    if (destroy) {src.reset();} else {
+      src->init(tO[0], tO[1], tO[2]);
+      follows(*src, tO, "source re-initialised after it was copied", "smart.value_semantics.d", "object_semantics");
+      snapO = src->R();
+    }
+    follows(*cp, tA, "copy after its source was overwritten / destroyed", "smart.value_semantics.d", "object_semantics");
+    flag("smart.copy_identical.d", same_bits(cp->R(), snapA), tA, "copy after its source was overwritten / destroyed",
+      "object_semantics");
+    cp->init(tB[0], tB[1], tB[2]);
+    follows(*cp, tB, "copy re-initialised", "smart.value_semantics.d", "object_semantics");
+    {
+      // the whole state is compared, not only R(): the derivative members (whose values are C12's business) must be
+      // those of a fresh object built from the same angles too
+      SmartRotation3D fresh(tB[0], tB[1], tB[2]);
+      const Eigen::Vector3d T(tO[0], tO[1], tO[2]);
+      const bool all = same_bits(cp->R(), fresh.R()) && same_bits(cp->dRdAngleAroundXAxis(), fresh.dRdAngleAroundXAxis()) &&
+        same_bits(cp->dRdAngleAroundYAxis(), fresh.dRdAngleAroundYAxis()) &&
+        same_bits(cp->dRdAngleAroundZAxis(), fresh.dRdAngleAroundZAxis()) &&
+        same_bits(Eigen::Matrix3d(cp->dRTdAngles(T)), Eigen::Matrix3d(fresh.dRTdAngles(T))) &&
+        same_bits(Eigen::Vector3d(*cp * T), Eigen::Vector3d(fresh * T));
+      flag("smart.copy_identical.d", all, tB, "re-initialised copy against a fresh object", "object_semantics");
+      flag("smart.copy_identical.d", same_bits(cp->R(), fresh.R()), tB, "R() after the const observers were called",
+        "object_semantics");
+    }
+    if (!destroy) {
+      flag("smart.copy_identical.d", same_bits(src->R(), snapO), tO, "source after its copy was re-initialised", "object_semantics");
+    }
+  }
+
+  // ---- arguments that alias the object's own state; expected value from the VALUES at call time
+  {
+    c.cat(istr("smart_argument_aliasing"));
+    SmartRotation3D obj(tA[0], tA[1], tA[2]);
+    op = 10 + (int)r2.range(0, 3);
+    double ex[3];
+    if (op == 10) {                                   // the same variable for all three reference parameters
+      const double v = tA[r2.range(0, 2)];
+      ex[0] = ex[1] = ex[2] = v;
+      obj.init(v, v, v);
+    } else if (op == 11) {                            // references to entries of its own R()
+      const int i0 = (int)r2.range(0, 8), i1 = (int)r2.range(0, 8), i2 = (int)r2.range(0, 8);
+      const double & e0 = obj.R()(i0 / 3, i0 % 3);
+      const double & e1 = obj.R()(i1 / 3, i1 % 3);
+      const double & e2 = obj.R()(i2 / 3, i2 % 3);
+      ex[0] = e0; ex[1] = e1; ex[2] = e2;
+      obj.init(e0, e1, e2);
+    } else if (op == 12) {                            // its own R() straight into the extraction, the result straight into init
+      const auto & ang = rc::rotation3DToEulerAngles<double>(obj.R());
+      ex[0] = ang[0]; ex[1] = ang[1]; ex[2] = ang[2];
+      obj.init(ang);
+    } else {                                          // a column of its own R() (temporary made from the getter's reference)
+      const int k = (int)r2.range(0, 2);
+      ex[0] = obj.R()(0, k); ex[1] = obj.R()(1, k); ex[2] = obj.R()(2, k);
+      obj.init(obj.R().col(k));
+    }
+    follows(obj, ex, "init() with arguments aliasing the object", "smart.argument_aliasing.d", "aliasing_dependent");
+
+    // ---- operator*: lvalue, temporary, a column of its own R()
+    {
+      Eigen::Vector3d T;
+      const int k = (int)r2.range(0, 2);
+      if (r2.coin(0.3)) {T = Eigen::Vector3d::Unit(k);} else {
+        const double m = r2.logu(1e-3, 1e3);
+        const double t0 = r2.uni(-1, 1), t1 = r2.uni(-1, 1), t2 = r2.uni(-1, 1);
+        T = m * Eigen::Vector3d(t0, t1, t2);
+      }
+      const bool own = r2.coin(0.25);
+      if (own) {T = obj.R().col(k);}
+      const Eigen::Vector3d g1 = obj * T;
+      const Eigen::Vector3d g2 = own ? Eigen::Vector3d(obj * obj.R().col(k)) : Eigen::Vector3d(obj * Eigen::Vector3d(T));
+      const M3 Re = oracle_R((LD)ex[0], (LD)ex[1], (LD)ex[2]);
+      LD d2 = 0, n2 = 0;
+      for (int i = 0; i < 3; ++i) {
+        LD w = Re.m[i][0] * (LD)T[0] + Re.m[i][1] * (LD)T[1] + Re.m[i][2] * (LD)T[2];
+        d2 += ((LD)g1[i] - w) * ((LD)g1[i] - w); n2 += (LD)T[i] * (LD)T[i];
+      }
+      cur = ex; stage = "operator*";
+      c.expect_le("smart.times_vector.d", sqrtl(d2), 2 * K_BUILD * eps<double>() * sqrtl(n2), "builders_disagree", pn, wn);
+      flag("smart.times_vector_call_forms.d", same_bits(g1, g2), ex, "operator* with a temporary", "call_form_dependent");
+    }
+
+    // ---- the view returned by R() next to sibling objects and unrelated calls
+    {
+      const Eigen::Matrix3d & view = obj.R();
+      const Eigen::Matrix3d snap = view;
+      {
+        SmartRotation3D s1(tO[0], tO[1], tO[2]);
+        SmartRotation3D s2(s1);
+        s2.init(tB[0], tB[1], tB[2]);
+        std::unique_ptr<SmartRotation3D> s3(new SmartRotation3D(Eigen::Vector3d(tB[0], tB[1], tB[2])));
+        g_sink = g_sink + s1.R()(0, 0) + s2.R()(1, 1) + s3->R()(2, 2);
+        s3.reset();
+        sibling_calls<double>(r2);
+        sibling_calls<float>(r2);
+      }
+      flag("smart.result_stable.d", same_bits(view, snap) && same_bits(obj.R(), snap), ex, "R() view after sibling activity",
+        "result_changed_later");
+    }
+  }
+}
+
+// ------------------------------------------------------------------------------------------------
+// long histories: one object re-initialised 2^8-4 or 2^16-4 times before it is first observed
+// ------------------------------------------------------------------------------------------------
+static void smart_long_history_case(vh::Ctx & c, uint64_t idx, bool big)
+{
+  vh::Rng r(c.seed, idx, 11);
+  const char * cat = big ? "smart_long_history_2p16" : "smart_long_history_2p8";
+  c.cat(istr("scalar_double"));
+  c.cat(istr(cat));
+  const int n = (big ? 65536 : 256);
+  const int mode = (int)r.range(0, 2);          // 0 near-duplicate random walk, 1 cycle over three unrelated triples, 2 one triple
+  double tri[3][3];
+  for (int i = 0; i < 3; ++i) {tri[i][0] = r.uni(-6, 6); tri[i][1] = r.uni(-1.5, 1.5); tri[i][2] = r.uni(-6, 6);}
+  double t[3] = {tri[0][0], tri[0][1], tri[0][2]};
+  c.distinct(vh::hash_doubles({8.0, (double)n, (double)mode, t[0], t[1], t[2]}), true);
+  int step = 0;
+  const std::function<vh::Params()> pn = [&]() {
+      return vh::Params{{"scalar", 0.0}, {"roll", t[0]}, {"pitch", t[1]}, {"yaw", t[2]}, {"reinit_step", (double)step},
+        {"history_mode", (double)mode}};
+    };
+  const std::function<std::string()> wn = [&]() {
+      return vh::J().s("cat", cat).f("inits", n).f("mode", mode).f("step", step).f("roll", (LD)t[0]).f("pitch", (LD)t[1])
+             .f("yaw", (LD)t[2]).str();
+    };
+  c.sample(istr(cat), wn);
+  rc::SmartRotation3D obj;
+  auto observe = [&]() {
+      const M3 got = toM3(obj.R());
+      if (!c.expect("finite.d", finite3(got), "nonfinite", pn, wn)) {return;}
+      c.expect_le("build.smart_long_history_vs_zyx.d", frob(got, oracle_R((LD)t[0], (LD)t[1], (LD)t[2])), K_BUILD * eps<double>(),
+        "builders_disagree_after_reinit", pn, wn);
+      check_proper3<double>(c, got, "SmartRotation3D::R", pn, wn);
+    };
+  // n - 3 unobserved initialisations, then every initialisation up to n + 3 is observed (a counter that wraps at 2^8 or
+  // 2^16 is hit whatever its off-by-one), the last one being next to its predecessor or unrelated
+  for (step = 1; step <= n + 3; ++step) {
+    const bool last = step == n + 3;
+    if (last && r.coin()) {
+      t[0] = r.uni(-6, 6); t[1] = r.uni(-1.5, 1.5); t[2] = r.uni(-6, 6);
+    } else if (mode == 0 || last) {
+      int mask = (int)r.range(1, 7);
+      for (int k = 0; k < 3; ++k) {if (mask & (1 << k)) {t[k] += r.sign() * r.logu(1e-15, 1e-2);}}
+    } else if (mode == 1) {
+      for (int k = 0; k < 3; ++k) {t[k] = tri[step % 3][k];}
+    }
+    if (step & 1) {obj.init(t[0], t[1], t[2]);} else {obj.init(Eigen::Vector3d(t[0], t[1], t[2]));}
+    if (step >= n - 3) {observe();}
+  }
+}
+
+// ------------------------------------------------------------------------------------------------
+// coordinate maps: scalar overloads, the same object for every reference parameter, value semantics of the coordinate
+// objects, getter references kept, temporaries
+// ------------------------------------------------------------------------------------------------
+template<class S> static void polar_extras(
+  vh::Ctx & c, S x, S y, LD nrm, const std::function<vh::Params()> & params, const std::function<std::string()> & wit)
+{
+  typedef rc::PolarCoordinates<S> PC;
+  vh::Rng r2(c.seed, c.cur, 9);
+  if (r2.coin(0.35)) {
+    c.cat(istr("polar_scalar_overloads"));
+    const S rg = rc::PolarTransform::range(x, y), azg = rc::PolarTransform::azimut(x, y);
+    const S xb = rc::PolarTransform::x(rg, azg), yb = rc::PolarTransform::y(rg, azg);
+    const std::function<std::string()> w = [&]() {
+        return vh::J().s("via", "PolarTransform scalar overloads").f("range", (LD)rg).f("azimut", (LD)azg).f("x_back", (LD)xb)
+               .f("y_back", (LD)yb).raw("case", wit()).str();
+      };
+    if (c.expect(ON("finite"), std::isfinite(rg) && std::isfinite(azg) && std::isfinite(xb) && std::isfinite(yb), "nonfinite", params, w)) {
+      c.expect_le(ON("polar.scalar_overloads_roundtrip"), hypotl((LD)xb - (LD)x, (LD)yb - (LD)y), K_COORD * eps<S>() * nrm,
+        "polar_roundtrip", params, w);
+    }
+    // the same object for both reference parameters: the polar point (v, v)
+    const S v = (S)r2.uni(0.01, 3.1);
+    const S xv = rc::PolarTransform::x(v, v), yv = rc::PolarTransform::y(v, v);
+    const S rv = rc::PolarTransform::range(xv, yv), av = rc::PolarTransform::azimut(xv, yv);
+    const std::function<vh::Params()> p2 = [&]() {
+        return vh::Params{{"scalar", Tr<S>::id()}, {"range", (double)v}, {"azimut", (double)v}, {"homogeneous", 0.0}};
+      };
+    const std::function<std::string()> w2 = [&]() {
+        return vh::J().s("via", "PolarTransform::x(v, v), y(v, v)").f("v", (LD)v).f("range_back", (LD)rv).f("azimut_back", (LD)av).str();
+      };
+    c.expect_le(ON("polar.same_object_arguments"), std::max(fabsl((LD)rv - (LD)v) / (LD)v, cdiff(av, v)), K_COORD * eps<S>(),
+      "aliasing_dependent", p2, w2);
+  }
+  if (r2.coin(0.25)) {
+    c.cat(istr("coordinates_object_semantics"));
+    const rc::CartesianCoordinates2<S> p(x, y);
+    std::unique_ptr<PC> src(new PC(rc::toPolar(p)));
+    const S & rref = src->getRange();
+    const S & aref = src->getAzimut();
+    const S r0 = rref, a0 = aref;
+    const auto & c0 = rc::toCartesian(*src);
+    const rc::CartesianCoordinates2<S> c00 = c0;
+    PC cp(*src);
+    PC as((S)1, (S)2);
+    as = *src;
+    PC mv{PC(*src)};
+    PC & alias = *src;
+    *src = alias;
+    // temporaries against lvalues
+    const PC pt = rc::toPolar(rc::CartesianCoordinates2<S>(x, y));
+    bool rv = same_bits_s(pt.getRange(), r0) && same_bits_s(pt.getAzimut(), a0) &&
+      same_bits(rc::CartesianCoordinates2<S>(rc::toCartesian(PC(r0, a0))), c00);
+    c.expect(ON("coordinates.rvalue_equals_lvalue"), rv, "call_form_dependent", params, wit);
+    // siblings, then the kept references and results
+    sibling_calls<S>(r2);
+    {
+      PC other((S)r2.uni(0.5, 2), (S)r2.uni(-3, 3));
+      g_sink = g_sink + (double)rc::toCartesian(other).x();
+    }
+    bool st = same_bits_s(rref, r0) && same_bits_s(aref, a0) && same_bits(rc::CartesianCoordinates2<S>(c0), c00);
+    c.expect(ON("coordinates.result_stable"), st, "result_changed_later", params, wit);
+    // source overwritten, then destroyed; the copies are used on
+    *src = PC((S)r2.uni(0.5, 2), (S)r2.uni(-3, 3));
+    bool ok = same_bits_s(cp.getRange(), r0) && same_bits_s(cp.getAzimut(), a0) && same_bits_s(as.getRange(), r0) &&
+      same_bits_s(as.getAzimut(), a0) && same_bits_s(mv.getRange(), r0) && same_bits_s(mv.getAzimut(), a0);
+    src.reset();
+    ok = ok && same_bits(rc::CartesianCoordinates2<S>(rc::toCartesian(cp)), c00) &&
+      same_bits(rc::CartesianCoordinates2<S>(rc::toCartesian(as)), c00) && same_bits(rc::CartesianCoordinates2<S>(rc::toCartesian(mv)), c00);
+    c.expect(ON("coordinates.object_semantics"), ok, "object_semantics", params, wit);
+  }
+}
+
+template<class S> static void spherical_extras(
+  vh::Ctx & c, S x, S y, S z, LD nrm, LD sin_el, const std::function<vh::Params()> & params,
+  const std::function<std::string()> & wit)
+{
+  typedef rc::SphericalCoordinates<S> SC;
+  typedef rc::CartesianCoordinates3<S> C3;
+  vh::Rng r2(c.seed, c.cur, 9);
+  if (r2.coin(0.35)) {
+    c.cat(istr("spherical_scalar_overloads"));
+    const bool two_step = r2.coin();
+    const S rg = rc::SphericalTransform::range(x, y, z), azg = rc::SphericalTransform::azimut(x, y);
+    const S elg = two_step ? rc::SphericalTransform::elevation(z, rg) : rc::SphericalTransform::elevation(x, y, z);
+    const S xb = rc::SphericalTransform::x(rg, azg, elg), yb = rc::SphericalTransform::y(rg, azg, elg);
+    const S zb = rc::SphericalTransform::z(rg, elg);
+    const std::function<std::string()> w = [&]() {
+        return vh::J().s("via", "SphericalTransform scalar overloads").boolean("elevation_from_z_and_range", two_step)
+               .f("range", (LD)rg).f("azimut", (LD)azg).f("elevation", (LD)elg).f("x_back", (LD)xb).f("y_back", (LD)yb)
+               .f("z_back", (LD)zb).raw("case", wit()).str();
+      };
+    bool fin = std::isfinite(rg) && std::isfinite(azg) && std::isfinite(elg) && std::isfinite(xb) && std::isfinite(yb) && std::isfinite(zb);
+    if (c.expect(ON("finite"), fin, "nonfinite", params, w)) {
+      LD d = sqrtl(powl((LD)xb - x, 2) + powl((LD)yb - y, 2) + powl((LD)zb - z, 2));
+      c.expect_le(ON("spherical.scalar_overloads_roundtrip"), d, nrm * (K_COORD * eps<S>() + acos_term<S>(sin_el)),
+        "spherical_roundtrip", params, w);
+    }
+    // the same object for every reference parameter: the spherical point (v, v, v)
+    const S v = (S)r2.uni(0.01, 3.1);
+    const S xv = rc::SphericalTransform::x(v, v, v), yv = rc::SphericalTransform::y(v, v, v), zv = rc::SphericalTransform::z(v, v);
+    const S rv = rc::SphericalTransform::range(xv, yv, zv), av = rc::SphericalTransform::azimut(xv, yv);
+    const S ev = rc::SphericalTransform::elevation(xv, yv, zv);
+    const LD se = fabsl(sinl((LD)v));
+    const std::function<vh::Params()> p2 = [&]() {
+        return vh::Params{{"scalar", Tr<S>::id()}, {"range", (double)v}, {"azimut", (double)v}, {"elevation", (double)v},
+          {"sin_elevation", (double)se}, {"homogeneous", 0.0}};
+      };
+    const std::function<std::string()> w2 = [&]() {
+        return vh::J().s("via", "SphericalTransform::x(v, v, v), y(v, v, v), z(v, v)").f("v", (LD)v).f("range_back", (LD)rv)
+               .f("azimut_back", (LD)av).f("elevation_back", (LD)ev).str();
+      };
+    LD e = std::max(fabsl((LD)rv - (LD)v) / (LD)v, cdiff(av, v));
+    c.expect_le(ON("spherical.same_object_arguments"), e, K_COORD * eps<S>(), "aliasing_dependent", p2, w2);
+    c.expect_le(ON("spherical.same_object_arguments_elevation"), fabsl((LD)ev - (LD)v), K_COORD * eps<S>() + 2 * acos_term<S>(se),
+      "aliasing_dependent", p2, w2);
+  }
+  if (r2.coin(0.25)) {
+    c.cat(istr("coordinates_object_semantics"));
+    const C3 p(x, y, z);
+    std::unique_ptr<SC> src(new SC(lib_to_spherical<S>(p)));
+    const S & rref = src->getRange();
+    const S & aref = src->getAzimut();
+    const S & eref = src->getElevation();
+    const S r0 = rref, a0 = aref, e0 = eref;
+    const auto & c0 = rc::toCartesian(*src);
+    const C3 c00 = c0;
+    SC cp(*src);
+    SC as((S)1, (S)2, (S)1);
+    as = *src;
+    SC mv{SC(*src)};
+    SC & alias = *src;
+    *src = alias;
+    const SC pt = lib_to_spherical<S>(C3(x, y, z));
+    bool rv = same_bits_s(pt.getRange(), r0) && same_bits_s(pt.getAzimut(), a0) && same_bits_s(pt.getElevation(), e0) &&
+      same_bits(C3(rc::toCartesian(SC(r0, a0, e0))), c00);
+    c.expect(ON("coordinates.rvalue_equals_lvalue"), rv, "call_form_dependent", params, wit);
+    sibling_calls<S>(r2);
+    {
+      SC other((S)r2.uni(0.5, 2), (S)r2.uni(-3, 3), (S)r2.uni(0, 3));
+      g_sink = g_sink + (double)rc::toCartesian(other).x();
+    }
+    bool st = same_bits_s(rref, r0) && same_bits_s(aref, a0) && same_bits_s(eref, e0) && same_bits(C3(c0), c00);
+    c.expect(ON("coordinates.result_stable"), st, "result_changed_later", params, wit);
+    *src = SC((S)r2.uni(0.5, 2), (S)r2.uni(-3, 3), (S)r2.uni(0, 3));
+    bool ok = same_bits_s(cp.getRange(), r0) && same_bits_s(cp.getAzimut(), a0) && same_bits_s(cp.getElevation(), e0) &&
+      same_bits_s(as.getElevation(), e0) && same_bits_s(as.getRange(), r0) && same_bits_s(mv.getAzimut(), a0) &&
+      same_bits_s(mv.getElevation(), e0);
+    src.reset();
+    ok = ok && same_bits(C3(rc::toCartesian(cp)), c00) && same_bits(C3(rc::toCartesian(as)), c00) &&
+      same_bits(C3(rc::toCartesian(mv)), c00);
+    c.expect(ON("coordinates.object_semantics"), ok, "object_semantics", params, wit);
+  }
+}
+
+// ------------------------------------------------------------------------------------------------
+// exact special values that random reals never produce
+// ------------------------------------------------------------------------------------------------
+static LD snap_q(LD v)
+{
+  static const LD grid[] = {0.0L, 0.5L, 1.0L};
+  for (LD g : grid) {if (fabsl(fabsl(v) - g) < 1e-15L) {return v < 0 ? -g : g;}}
+  return v;
+}
+
+template<class S> static void special_values_case(vh::Ctx & c, vh::Rng & r)
+{
+  Preset ps{};
+  const int k = (int)r.range(0, 8);
+  static const int ci[4] = {1, 0, -1, 0}, si[4] = {0, 1, 0, -1};
+  auto quarter_turn = [&]() {
+      const int a = (int)r.range(0, 3), b2 = 2 * (int)r.range(0, 1), cc = (int)r.range(0, 3);
+      M3 Rx = {{{1, 0, 0}, {0, (LD)ci[cc], (LD)-si[cc]}, {0, (LD)si[cc], (LD)ci[cc]}}};
+      M3 Ry = {{{(LD)ci[b2], 0, (LD)si[b2]}, {0, 1, 0}, {(LD)-si[b2], 0, (LD)ci[b2]}}};
+      M3 Rz = {{{(LD)ci[a], (LD)-si[a], 0}, {(LD)si[a], (LD)ci[a], 0}, {0, 0, 1}}};
+      ps.R = mul(Rz, mul(Ry, Rx));
+      for (int i = 0; i < 3; ++i) {for (int j = 0; j < 3; ++j) {if (ps.R.m[i][j] == 0 && r.coin(0.2)) {ps.R.m[i][j] = -0.0L;}}}
+      Q4 q = oracle_q(cc * PI_L / 2, b2 * PI_L / 2, a * PI_L / 2);
+      ps.q = Q4{snap_q(q.w), snap_q(q.x), snap_q(q.y), snap_q(q.z)};
+    };
+  auto pow2 = [&]() {return ldexpl(1.0L, (int)r.range(-16, 16));};
+  switch (k) {
+    case 0: {                                                    // the same value for all three angles
+        int m = (int)r.range(0, 4);
+        LD v = m == 0 ? (LD)r.uni(-(double)PITCH_LIM_L, (double)PITCH_LIM_L) : m == 1 ? 1.0L : m == 2 ? -1.0L : m == 3 ? 0.5L : 1.5L;
+        ps.cat = "euler_equal_components"; ps.v[0] = ps.v[1] = ps.v[2] = v;
+        euler_case<S>(c, r, &ps); break;
+      }
+    case 1: {                                                    // integers
+        ps.cat = "euler_integer";
+        ps.v[0] = (LD)r.range(-6, 6); ps.v[1] = (LD)r.range(-1, 1); ps.v[2] = (LD)r.range(-6, 6);
+        euler_case<S>(c, r, &ps); break;
+      }
+    case 2: quarter_turn(); ps.cat = "rotmat_exact_quarter_turns"; rotation_case<S>(c, r, false, &ps); break;
+    case 3: quarter_turn(); ps.cat = "quaternion_exact_quarter_turns"; rotation_case<S>(c, r, true, &ps); break;
+    case 4: ps.cat = "normaliser_integer"; ps.v[0] = (LD)r.range(-12, 12); normaliser_case<S>(c, r, &ps); break;
+    case 5: {
+        ps.cat = "rot2d_special_values"; ps.v[0] = (LD)r.range(-6, 6);
+        const int a = (int)r.range(0, 3);
+        ps.R = M3{{{(LD)ci[a], (LD)-si[a], 0}, {(LD)si[a], (LD)ci[a], 0}, {0, 0, 1}}};
+        rot2d_case<S>(c, r, &ps); break;
+      }
+    case 6: {                                                    // equal components, integers, exact ties
+        ps.cat = "polar_special_values";
+        int m = (int)r.range(0, 3);
+        LD s = pow2();
+        if (m == 0) {ps.v[0] = s; ps.v[1] = s;} else if (m == 1) {ps.v[0] = s; ps.v[1] = -s;} else if (m == 2) {
+          ps.v[0] = -3 * s; ps.v[1] = 4 * s;
+        } else {
+          LD a = (LD)r.range(-9, 9), b = (LD)r.range(-9, 9);
+          if (a == 0 && b == 0) {a = 1;}
+          ps.v[0] = a * s; ps.v[1] = b * s;
+        }
+        polar_case<S>(c, r, &ps); break;
+      }
+    default: {
+        ps.cat = "spherical_special_values";
+        int m = (int)r.range(0, 5);
+        LD s = pow2();
+        LD a, b, d;
+        if (m == 0) {a = b = d = 1;} else if (m == 1) {a = 1; b = -1; d = 1;} else if (m == 2) {a = 1; b = 1; d = 0;} else if (m == 3) {
+          a = 1; b = 2; d = -2;
+        } else if (m == 4) {a = 2; b = 3; d = 6;} else {
+          a = (LD)r.range(-9, 9); b = (LD)r.range(-9, 9); d = (LD)r.range(-9, 9);
+          if (a == 0 && b == 0 && d == 0) {d = 1;}
+        }
+        if (r.coin()) {std::swap(a, d);}
+        ps.v[0] = a * s; ps.v[1] = b * s; ps.v[2] = d * s;
+        spherical_case<S>(c, r, &ps); break;
+      }
+  }
 }
 
 // ------------------------------------------------------------------------------------------------
@@ -965,6 +1604,18 @@ template<class S> static void dispatch(vh::Ctx & c, vh::Rng & r, int fam)
 
 static void one_case(vh::Ctx & c, uint64_t idx)
 {
+  // long histories are rare and expensive: a fixed share of the case indices
+  if (idx % 250000 == 4321) {smart_long_history_case(c, idx, true); return;}
+  if (idx % 2000 == 321) {smart_long_history_case(c, idx, false); return;}
+  {
+    vh::Rng rs(c.seed, idx, 5);
+    if (rs.coin(0.05)) {
+      if (rs.coin(0.45)) {c.cat(istr("scalar_float")); special_values_case<float>(c, rs);} else {
+        c.cat(istr("scalar_double")); special_values_case<double>(c, rs);
+      }
+      return;
+    }
+  }
   vh::Rng r(c.seed, idx);
   int fam = (int)r.range(0, 99);
   if (r.coin(0.45)) {dispatch<float>(c, r, fam);} else {dispatch<double>(c, r, fam);}
